@@ -295,7 +295,12 @@ func TestCiphersAndMACsVsGo(t *testing.T) {
 			if Ciphers[ciph].AEAD && mac != allMACNames[0] {
 				continue
 			}
-			t.Logf("tuple %s %s", ciph, mac)
+			if (ciph == "aes128-cbc" || ciph == "3des-cbc") && MACs[mac].ETM {
+				// x/crypto's CBC packet cipher ignores the EtM flag of the negotiated MAC (it always
+				// uses encrypt-and-MAC framing), so it cannot talk to a conforming peer for these
+				// pairs; refpeer's CBC+EtM framing is validated against the OpenSSH client instead.
+				continue
+			}
 			// re-keys from both sides in both set-ups
 			runRefClientGoServer(t, "curve25519-sha256", "ssh-ed25519", "ed25519", ciph, mac, 7000, 9000)
 			runGoClientRefServer(t, "curve25519-sha256", "ssh-ed25519", keys["ed25519"].hk, keys["ed25519"].signer.PublicKey(), ciph, mac, EchoOptions{RekeyEvery: 8000, RekeyAfterAuth: true}, 5000, nil)
